@@ -101,6 +101,7 @@ type Cluster struct {
 	fatals    []Fatal
 	stopC     chan struct{}
 	TickCount int64
+	Blocked   int64 // guarded calls into a server that did not return in time
 	crash     *CrashPoint
 	OnCrash   func(n *Node, cp *CrashPoint)
 
@@ -266,14 +267,26 @@ func installHooks() {
 	})
 }
 
+var portCtr int64
+
+// freePort hands out ports from a range owned by this shard (shards of one
+// check run in parallel processes), skipping ports that are in use.
 func freePort() string {
-	l, err := net.Listen("tcp", "127.0.0.1:0")
-	if err != nil {
-		panic(err)
+	shard := 0
+	if s := os.Getenv("VERIF_SHARD"); s != "" {
+		fmt.Sscanf(s, "%d/", &shard)
 	}
-	defer l.Close()
-	_, p, _ := net.SplitHostPort(l.Addr().String())
-	return p
+	base := 20000 + (shard%20)*2000
+	for i := 0; i < 4000; i++ {
+		p := base + int(atomic.AddInt64(&portCtr, 1))%2000
+		l, err := net.Listen("tcp", fmt.Sprintf(":%d", p))
+		if err != nil {
+			continue
+		}
+		l.Close()
+		return fmt.Sprint(p)
+	}
+	panic("no free port")
 }
 
 // New prepares a cluster (nothing is started yet).
@@ -432,10 +445,11 @@ func (c *Cluster) WaitFor(d time.Duration, cond func() bool) error {
 	deadline := time.Now().Add(d)
 	for {
 		ok := false
-		func() {
-			defer func() { recover() }()
-			ok = cond()
-		}()
+		// the condition calls into the servers and may block on one of their
+		// locks (that is what a wedged node looks like): evaluate it on the side
+		if !c.Guard(3*time.Second, func() { ok = cond() }) {
+			ok = false
+		}
 		if ok {
 			return nil
 		}
@@ -443,6 +457,24 @@ func (c *Cluster) WaitFor(d time.Duration, cond func() bool) error {
 			return errors.New("watchdog")
 		}
 		time.Sleep(5 * time.Millisecond)
+	}
+}
+
+// Guard runs f on a goroutine of its own and gives up after d; it reports
+// whether f returned. A call that never returns is counted in Blocked.
+func (c *Cluster) Guard(d time.Duration, f func()) bool {
+	done := make(chan struct{})
+	go func() {
+		defer close(done)
+		defer func() { recover() }()
+		f()
+	}()
+	select {
+	case <-done:
+		return true
+	case <-time.After(d):
+		atomic.AddInt64(&c.Blocked, 1)
+		return false
 	}
 }
 
